@@ -419,4 +419,10 @@ def units(tier):
             us.append(Contains(cn, r))
     us.append(Contains("Signal", "kHz", with_t0=False))
     us.append(Contains("DualPolarizationSignal", "MHz", with_t0=False))
+    # cropped time shifts (FFT-based crop: the units live in C03's harness; here for their start_time / length clauses):
+    # crop=True drops ceil(max shift) leading and ceil(-min shift) trailing samples and advances start_time by the samples dropped
+    from .C03 import FracShift, IntShift
+    us += [IntShift(2, (2,), (2,), cplx=True, crop=True), FracShift(2, (), (), cplx=False, crop=True), FracShift(2, (2,), (2,), cplx=True, crop=True)]
+    if tier != "quick":
+        us += [IntShift(4, (2,), (), cplx=False, crop=True), FracShift(4, (), (), cplx=True, crop=True)]
     return us
